@@ -608,6 +608,10 @@ impl FixtureDatabase {
             declared_params.insert("self".to_string());
             declared_params.insert("request".to_string());
             declared_params.insert(func_name.to_string());
+            // `*args` / `**kwargs` bind local names too (they request nothing)
+            for variadic in args.vararg.iter().chain(args.kwarg.iter()) {
+                declared_params.insert(variadic.arg.to_string());
+            }
 
             for arg in Self::all_args(args) {
                 let arg_name = arg.def.arg.as_str();
@@ -688,6 +692,10 @@ impl FixtureDatabase {
             let mut declared_params: HashSet<String> = HashSet::new();
             declared_params.insert("self".to_string());
             declared_params.insert("request".to_string());
+            // `*args` / `**kwargs` bind local names too (they request nothing)
+            for variadic in args.vararg.iter().chain(args.kwarg.iter()) {
+                declared_params.insert(variadic.arg.to_string());
+            }
 
             for arg in Self::all_args(args) {
                 let arg_name = arg.def.arg.as_str();
